@@ -3,6 +3,7 @@ package gorilla
 import (
 	"context"
 	"io"
+	"sync"
 	"time"
 
 	"github.com/aptpod/iscp-go/transport"
@@ -13,13 +14,29 @@ import (
 // Connは、 gorilla/websocketのConnのラッパーです。
 type Conn struct {
 	wsconn *gwebsocket.Conn
+
+	// gorilla/websocket supports only one concurrent writer: a message writer is held exclusively until it is closed.
+	writeLock chan struct{}
 }
 
 // Newは、Connを返却します。
 func New(wsconn *gwebsocket.Conn) *Conn {
 	return &Conn{
-		wsconn: wsconn,
+		wsconn:    wsconn,
+		writeLock: make(chan struct{}, 1),
 	}
+}
+
+// exclusiveWriter releases the connection's write lock when the message writer is closed.
+type exclusiveWriter struct {
+	io.WriteCloser
+	release sync.Once
+	c       *Conn
+}
+
+func (w *exclusiveWriter) Close() error {
+	defer w.release.Do(func() { <-w.c.writeLock })
+	return w.WriteCloser.Close()
 }
 
 // Pingは、WebSocketのPingを送信します。
@@ -44,21 +61,26 @@ func (c *Conn) Reader(ctx context.Context) (websocket.MessageType, io.Reader, er
 
 // Writerは、WebSocketのWriterを取得します。
 func (c *Conn) Writer(ctx context.Context, tp websocket.MessageType) (io.WriteCloser, error) {
+	var mt int
 	switch tp {
 	case websocket.MessageBinary:
-		res, err := c.wsconn.NextWriter(gwebsocket.BinaryMessage)
-		if err != nil {
-			return nil, handlerError(err)
-		}
-		return res, nil
+		mt = gwebsocket.BinaryMessage
 	case websocket.MessageText:
-		res, err := c.wsconn.NextWriter(gwebsocket.TextMessage)
-		if err != nil {
-			return nil, handlerError(err)
-		}
-		return res, nil
+		mt = gwebsocket.TextMessage
+	default:
+		panic("unreachable")
 	}
-	panic("unreachable")
+	select {
+	case c.writeLock <- struct{}{}:
+	case <-ctx.Done():
+		return nil, ctx.Err()
+	}
+	res, err := c.wsconn.NextWriter(mt)
+	if err != nil {
+		<-c.writeLock
+		return nil, handlerError(err)
+	}
+	return &exclusiveWriter{WriteCloser: res, c: c}, nil
 }
 
 // Closeは、WebSocketをクローズします。
